@@ -226,7 +226,6 @@ struct Interp {
 			Model m2 = m;
 			auto& t = ctx.desc;
 			auto tag = [&](char const* name) { t << " ." << name; };
-			if(no_const && (code == OP_REVERSED || code == OP_SLICED3 || code == OP_CHUNKED)) { ctx.count("ops_skipped_would_be_const"); continue; }  // these return read-only views even on mutable sources
 			if(Based && null_root && !known_mode()) {
 				// a re-based array with zero elements reports the extension [0,0) while its hidden layout offset is non-zero: every slicing
 				// operation trips the null-pointer-offset assertion (same family as the recorded C01 finding); only shape operations are applied
@@ -329,7 +328,6 @@ struct Interp {
 			} else { ctx.count("ops_excluded_const_overload"); } break;
 			case OP_DIAGONAL: if constexpr(D >= 2 && !KeepD) {
 				if(Based && (m.d[0].first != 0 || m.d[1].first != 0)) { ctx.count("ops_skipped_diagonal_based"); break; }  // diagonal() slices with literal {0,n}: zero-based views only
-				if(no_const && (code == OP_REVERSED || code == OP_SLICED3 || code == OP_CHUNKED)) { ctx.count("ops_skipped_would_be_const"); continue; }  // these return read-only views even on mutable sources
 			if(Based && null_root && !known_mode()) { break; }  // (internally slices a null-based view whose hidden offset is non-zero)
 				Dim const d1 = m.d[1];
 				m2.d.erase(m2.d.begin());
